@@ -33,7 +33,7 @@ const char* state_name(int s) {
 struct Th;
 // A carrier is a real pthread that is kept alive and re-used for successive simulated threads (creating real
 // threads is by far the most expensive operation under ASan, and does not scale across worker processes).
-struct Carrier { pthread_t real{}; sem_t sem; Th* th = nullptr; bool idle = false; };
+struct Carrier { pthread_t real{}; sem_t sem; Th* th = nullptr; bool idle = false; uintptr_t stk_lo = 0, stk_hi = 0; };
 std::vector<Carrier*> carriers;
 
 struct Th {
@@ -53,6 +53,7 @@ struct Th {
   void* arg = nullptr;
   pthread_t real{};
   long prio = 0;
+  int ign = 0;                 // race detection (VSIM_RACE): accesses of this thread are not monitored while non-zero (harness code)
 #ifdef VSIM_PROC
   uint64_t sigmask = 0;
   bool deliver = false;
@@ -102,6 +103,8 @@ long cond_wait_calls = 0;
 int last_run_tid = 0;
 
 void fnv(uint64_t& h, uint64_t x) { for (int i = 0; i < 8; ++i) { h = (h ^ ((x >> (8 * i)) & 0xff)) * 1099511628211ull; } }
+
+void race_begin(); void race_end(); void race_thread_start(Carrier*);
 
 template <class F> F real(const char* n) { return reinterpret_cast<F>(dlsym(RTLD_NEXT, n)); }
 sem_t main_sem;
@@ -294,6 +297,7 @@ void run_pending_handler() {
     uint64_t old = self->sigmask; uint64_t m = CHLD_BIT;
     for (int s = 1; s < 64; ++s) if (sigismember(&sa.sa_mask, s) == 1) m |= (1ull << s);
     self->sigmask |= m; self->in_handler++;
+    int s_ign = self->ign; self->ign = 0;   // a handler is code under test whatever it interrupted
     int saved = self->state; self->state = RUN;
     const void* s_obj = self->obj; const void* s_mtx = self->mtx; int s_join = self->join_target, s_wpid = self->wait_pid, s_rfd = self->read_fd;
     vsim::count("handler_runs");
@@ -302,7 +306,7 @@ void run_pending_handler() {
     sa.sa_handler(SIGCHLD);
     vsim::event(105, self->id, 0);
     self->state = saved; self->obj = s_obj; self->mtx = s_mtx; self->join_target = s_join; self->wait_pid = s_wpid; self->read_fd = s_rfd;
-    self->in_handler--; self->sigmask = old;
+    self->in_handler--; self->sigmask = old; self->ign = s_ign;
     if (sig_pending_proc && can_take_signal(self)) { sig_pending_proc = false; self->deliver = true; }
   }
 }
@@ -328,6 +332,7 @@ void* tramp(void* p) {
     while (sem_wait(&c->sem) == -1 && errno == EINTR) {}   // first scheduling of the simulated thread assigned to this carrier
     Th* t = c->th;
     self = t;
+    race_thread_start(c);
     run_pending_handler();
     t->retval = t->fn(t->arg);
     t->state = FIN;
@@ -403,16 +408,18 @@ void begin(const Config& c) {
   memset(handlers, 0, sizeof handlers);
 #endif
   static bool main_sem_init = false; if (!main_sem_init) { sem_init(&main_sem, 0, 0); main_sem_init = true; }
-  Th* t = new Th{}; t->id = 0; t->prio = 1 << 20;
-  ths.push_back(t); self = t; g_active = true;
+  Th* t = new Th{}; t->id = 0; t->prio = 1 << 20; t->ign = 1; vc_tick(t);
+  ths.push_back(t); self = t; race_begin(); g_active = true;
 }
 
 uint64_t end() {
+  race_end();
   g_active = false;
   return hashv;
 }
 
 void yield() { if (g_active && self) { ypoint(); } }
+int race_mode(int ignore) { if (!(g_active && self)) return 0; int o = self->ign; self->ign = ignore; return o; }
 
 #ifdef VSIM_PROC
 void set_next_fate(const Fate& f) { if (self) self->next_fate = f; }
@@ -476,7 +483,7 @@ int pthread_mutex_unlock(pthread_mutex_t* m) {
   if (it != mowner.end() && it->second == self->id) {
     auto d = mdepth.find(m);
     if (d != mdepth.end() && d->second > 0) { d->second--; return 0; }
-    vc_tick(self); mclock[m] = self->vc;
+    mclock[m] = self->vc; vc_tick(self);   // publish, then open a new epoch: later accesses are not covered by this release
     mowner.erase(it);
   }
   vsim::event(4, (long)self->id, 0);
@@ -490,7 +497,7 @@ int pthread_mutex_destroy(pthread_mutex_t* m) {
 static int sim_cond_wait(pthread_cond_t* c, pthread_mutex_t* m) {
   ypoint();
   long k = cond_wait_calls++;
-  vc_tick(self); mclock[m] = self->vc;
+  mclock[m] = self->vc; vc_tick(self);
   mowner.erase(m);
   self->state = B_COND; self->obj = c; self->mtx = m; self->woken = false; self->spur_step = -1; self->cw = c;
   for (auto& f : cfg.faults) if (f.kind == vsim::F_SPURIOUS && f.a == k) self->spur_step = steps + 1 + f.b;
@@ -548,7 +555,7 @@ int pthread_create(pthread_t* pt, const pthread_attr_t* a, void* (*fn)(void*), v
     if (r != 0) { delete c; delete t; return r; }
     carriers.push_back(c);
   }
-  vc_tick(self); t->vc = self->vc;
+  t->vc = self->vc; vc_tick(t); vc_tick(self); t->ign = self->ign;
   c->idle = false; c->th = t; t->car = c; t->real = c->real;
   ths.push_back(t);
   *pt = c->real;
@@ -710,3 +717,206 @@ int __wrap_pthread_sigmask(int how, const sigset_t* set, sigset_t* old) { return
 #endif
 
 }  // extern "C"
+
+// ============================================================================ race detection (VSIM_RACE)
+// The sources taken from /repo (and the harness) are compiled with -fsanitize=thread but linked WITHOUT the TSan runtime:
+// the compiler-inserted calls (__tsan_read*/__tsan_write*/__tsan_atomic*) land here and feed the same vector clocks as the
+// simulated mutexes / thread create / join.  Every plain memory access of the instrumented code is therefore checked for a
+// happens-before order with the previous conflicting accesses — under the serialising scheduler this is the only way to see
+// that a lock was removed, narrowed or replaced by another one when the unprotected region contains no scheduling point.
+// This file is then built as a shared object linked with -Bsymbolic, so that the simulator's own (uninstrumented) template
+// instantiations are never replaced by instrumented copies from the executable.
+#ifndef VSIM_RACE
+namespace { void race_begin() {} void race_end() {} void race_thread_start(Carrier*) {} }
+#else
+#include <malloc.h>
+#include <cxxabi.h>
+#include <execinfo.h>
+#include <new>
+#include <unordered_map>
+namespace {
+struct RAcc { int tid; uint32_t clk; const void* pc; };
+struct RCell { RAcc w{-1, 0, nullptr}; std::vector<RAcc> rd; };
+std::unordered_map<uintptr_t, RCell> rcells;                 // one cell per byte address
+std::map<uintptr_t, std::vector<uint32_t>> aclock;           // clock attached to each atomic location
+thread_local bool in_rt = false;
+long n_rd = 0, n_wr = 0, n_at = 0, n_forget = 0, n_lib = 0;
+
+// A carrier (real thread) serves several simulated threads one after the other: what the previous one left in the carrier's stack
+// and static TLS block is not shared with the next one.
+void race_thread_start(Carrier* c) {
+  if (!c->stk_hi) {
+    pthread_attr_t at;
+    if (pthread_getattr_np(pthread_self(), &at) == 0) { void* lo = nullptr; size_t sz = 0; pthread_attr_getstack(&at, &lo, &sz); pthread_attr_destroy(&at); c->stk_lo = uintptr_t(lo); c->stk_hi = uintptr_t(lo) + sz; }
+  }
+  in_rt = true;
+  for (auto it = rcells.begin(); it != rcells.end();) { if (it->first >= c->stk_lo && it->first < c->stk_hi) it = rcells.erase(it); else ++it; }
+  for (auto it = aclock.lower_bound(c->stk_lo); it != aclock.end() && it->first < c->stk_hi;) it = aclock.erase(it);
+  in_rt = false;
+}
+void race_begin() {
+  in_rt = true; rcells.clear(); aclock.clear(); in_rt = false; n_rd = n_wr = n_at = n_forget = n_lib = 0;
+}
+void race_end() {
+  in_rt = true;
+  vsim::count("race_reads_checked", n_rd); vsim::count("race_writes_checked", n_wr); vsim::count("race_atomic_ops", n_at); vsim::count("race_heap_blocks_forgotten", n_forget); vsim::count("race_library_calls_checked", n_lib);
+  in_rt = false;
+}
+std::string where(const void* pc) {   // fatal path only: source position(s) of an access, inlined frames included
+  Dl_info i;
+  if (pc && dladdr(const_cast<void*>(pc), &i) && i.dli_fname) {
+    char cmd[1024]; snprintf(cmd, sizeof cmd, "addr2line -Cfpie '%s' 0x%lx 2>/dev/null", i.dli_fname, (unsigned long)(uintptr_t(pc) - uintptr_t(i.dli_fbase) - 1));
+    std::string out;
+    if (FILE* f = popen(cmd, "r")) {
+      char l[1200]; int n = 0;
+      while (n < 4 && fgets(l, sizeof l, f)) {
+        std::string s(l); while (!s.empty() && (s.back() == '\n' || s.back() == ' ')) s.pop_back();
+        if (s.empty() || s[0] == '?') continue;
+        auto at = s.rfind(" at "); std::string fn = at == std::string::npos ? s : s.substr(0, at), pos = at == std::string::npos ? "" : s.substr(at + 4);
+        if (fn.compare(0, 13, " (inlined by)") == 0) fn = fn.substr(14);
+        if (fn.size() > 90) fn = fn.substr(0, 90) + "...";
+        auto sl = pos.rfind('/'); if (sl != std::string::npos) { auto sl2 = pos.rfind('/', sl - 1); pos = pos.substr(sl2 == std::string::npos ? sl + 1 : sl2 + 1); }
+        auto disc = pos.find(" (discriminator"); if (disc != std::string::npos) pos = pos.substr(0, disc);
+        out += (n ? " <- " : "") + fn + " (" + pos + ")"; ++n;
+      }
+      pclose(f);
+    }
+    if (!out.empty()) return out;
+    if (i.dli_sname) { int st = 0; char* d = abi::__cxa_demangle(i.dli_sname, nullptr, nullptr, &st); std::string s = (st == 0 && d) ? d : i.dli_sname; free(d); return s.size() > 160 ? s.substr(0, 160) + "..." : s; }
+  }
+  return "(unknown function)";
+}
+std::string what(uintptr_t a) {
+  Dl_info i;
+  if (dladdr(reinterpret_cast<void*>(a), &i) && i.dli_sname) return std::string("global ") + i.dli_sname;
+  return "heap or anonymous memory";
+}
+bool ordered(const RAcc& x) { return x.tid < 0 || x.tid == self->id || x.clk <= vc_get(self->vc, x.tid); }
+void race_report(bool wr, const void* pc, const RAcc& o, bool owr, uintptr_t a) {
+  std::string d = std::string(wr ? "write" : "read") + " by T" + std::to_string(self->id) + " in " + where(pc) + " is not ordered with the earlier " + (owr ? "write" : "read") + " by T" +
+                  std::to_string(o.tid) + " in " + where(o.pc) + " (" + what(a) + "; no common lock, no create/join edge)";
+  fatal("data-race", d);
+}
+inline void race_access(const void* p, size_t n, bool wr, const void* pc) {
+  if (!SIM_ON || in_rt || self->ign) return;
+  uintptr_t a = uintptr_t(p);
+  in_rt = true;
+  (wr ? n_wr : n_rd)++;
+  const uint32_t my = vc_get(self->vc, self->id);
+  for (size_t k = 0; k < n; ++k) {
+    RCell& c = rcells[a + k];
+    if (!ordered(c.w)) race_report(wr, pc, c.w, true, a + k);
+    if (wr) {
+      for (auto& r : c.rd) if (!ordered(r)) race_report(true, pc, r, false, a + k);
+      c.w = {self->id, my, pc}; c.rd.clear();
+    } else {
+      bool found = false;
+      for (auto& r : c.rd) if (r.tid == self->id) { r.clk = my; r.pc = pc; found = true; }
+      if (!found) c.rd.push_back({self->id, my, pc});
+    }
+  }
+  in_rt = false;
+}
+inline void race_atomic(const volatile void* p) {   // every atomic operation is treated as acquire + release on its location
+  if (!SIM_ON || in_rt) return;
+  in_rt = true; ++n_at;
+  auto& c = aclock[uintptr_t(p)];
+  vc_join(self->vc, c); c = self->vc; vc_tick(self);
+  in_rt = false;
+}
+void race_forget(void* p) {
+  if (!p || !SIM_ON || in_rt) return;
+  in_rt = true; ++n_forget;
+  size_t n = malloc_usable_size(p); uintptr_t a = uintptr_t(p);
+  if (rcells.size() < n) { for (auto it = rcells.begin(); it != rcells.end();) { if (it->first >= a && it->first < a + n) it = rcells.erase(it); else ++it; } }
+  else for (size_t k = 0; k < n; ++k) rcells.erase(a + k);
+  for (auto it = aclock.lower_bound(a); it != aclock.end() && it->first < a + n;) it = aclock.erase(it);
+  in_rt = false;
+}
+}  // namespace
+
+// memory handed back to the allocator loses its access history (a new owner is not racing with the previous one)
+void* operator new(size_t n) { void* p = malloc(n ? n : 1); if (!p) throw std::bad_alloc(); return p; }
+void* operator new[](size_t n) { return operator new(n); }
+void* operator new(size_t n, const std::nothrow_t&) noexcept { return malloc(n ? n : 1); }
+void* operator new[](size_t n, const std::nothrow_t&) noexcept { return malloc(n ? n : 1); }
+void* operator new(size_t n, std::align_val_t al) { void* p = nullptr; if (posix_memalign(&p, std::max(size_t(al), sizeof(void*)), n ? n : 1) != 0) throw std::bad_alloc(); return p; }
+void* operator new[](size_t n, std::align_val_t al) { return operator new(n, al); }
+void operator delete(void* p) noexcept { race_forget(p); free(p); }
+void operator delete[](void* p) noexcept { race_forget(p); free(p); }
+void operator delete(void* p, size_t) noexcept { race_forget(p); free(p); }
+void operator delete[](void* p, size_t) noexcept { race_forget(p); free(p); }
+void operator delete(void* p, std::align_val_t) noexcept { race_forget(p); free(p); }
+void operator delete[](void* p, std::align_val_t) noexcept { race_forget(p); free(p); }
+void operator delete(void* p, size_t, std::align_val_t) noexcept { race_forget(p); free(p); }
+void operator delete[](void* p, size_t, std::align_val_t) noexcept { race_forget(p); free(p); }
+void operator delete(void* p, const std::nothrow_t&) noexcept { race_forget(p); free(p); }
+void operator delete[](void* p, const std::nothrow_t&) noexcept { race_forget(p); free(p); }
+
+// Calls into the (uninstrumented) C++ library that modify an object: an insertion into a std::ostream is a write access to the stream
+// object.  The standard streams are excluded (concurrent use of cout/cerr/clog is allowed by the standard).
+namespace {
+bool std_stream(const void* os) {
+  static const void* c[3] = {dlsym(RTLD_DEFAULT, "_ZSt4cout"), dlsym(RTLD_DEFAULT, "_ZSt4cerr"), dlsym(RTLD_DEFAULT, "_ZSt4clog")};
+  return os == c[0] || os == c[1] || os == c[2];
+}
+inline void lib_write(const void* obj, const void* pc) { if (SIM_ON && !in_rt && !self->ign && !std_stream(obj)) { ++n_lib; race_access(obj, 1, true, pc); } }
+}
+#define OSTREAM_MEMBER(NAME, MANGLED, ARGS_DECL, ARGS)                                                      \
+  extern "C" void* NAME ARGS_DECL __asm__(MANGLED);                                                          \
+  void* NAME ARGS_DECL { lib_write(os, __builtin_return_address(0)); static auto f = real<void* (*) ARGS_DECL>(MANGLED); return f ARGS; }
+OSTREAM_MEMBER(vsim_os_insert, "_ZSt16__ostream_insertIcSt11char_traitsIcEERSt13basic_ostreamIT_T0_ES6_PKS3_l", (void* os, const char* s, long n), (os, s, n))
+OSTREAM_MEMBER(vsim_os_write, "_ZNSo5writeEPKcl", (void* os, const char* s, long n), (os, s, n))
+OSTREAM_MEMBER(vsim_os_put, "_ZNSo3putEc", (void* os, char ch), (os, ch))
+OSTREAM_MEMBER(vsim_os_flush, "_ZNSo5flushEv", (void* os), (os))
+OSTREAM_MEMBER(vsim_os_ins_l, "_ZNSo9_M_insertIlEERSoT_", (void* os, long v), (os, v))
+OSTREAM_MEMBER(vsim_os_ins_m, "_ZNSo9_M_insertImEERSoT_", (void* os, unsigned long v), (os, v))
+OSTREAM_MEMBER(vsim_os_ins_x, "_ZNSo9_M_insertIxEERSoT_", (void* os, long long v), (os, v))
+OSTREAM_MEMBER(vsim_os_ins_y, "_ZNSo9_M_insertIyEERSoT_", (void* os, unsigned long long v), (os, v))
+OSTREAM_MEMBER(vsim_os_ins_d, "_ZNSo9_M_insertIdEERSoT_", (void* os, double v), (os, v))
+OSTREAM_MEMBER(vsim_os_ins_e, "_ZNSo9_M_insertIeEERSoT_", (void* os, long double v), (os, v))
+OSTREAM_MEMBER(vsim_os_ins_b, "_ZNSo9_M_insertIbEERSoT_", (void* os, bool v), (os, v))
+OSTREAM_MEMBER(vsim_os_ins_p, "_ZNSo9_M_insertIPKvEERSoT_", (void* os, const void* v), (os, v))
+OSTREAM_MEMBER(vsim_os_ins_i, "_ZNSolsEi", (void* os, int v), (os, v))
+OSTREAM_MEMBER(vsim_os_ins_s, "_ZNSolsEs", (void* os, short v), (os, v))
+OSTREAM_MEMBER(vsim_os_ins_sb, "_ZNSolsEPSt15basic_streambufIcSt11char_traitsIcEE", (void* os, void* v), (os, v))
+
+#define RA(p, n, w) race_access(p, n, w, __builtin_return_address(0))
+extern "C" {
+void __tsan_init() {}
+void __tsan_func_entry(void*) {}
+void __tsan_func_exit() {}
+void __tsan_read1(void* p) { RA(p, 1, false); }   void __tsan_write1(void* p) { RA(p, 1, true); }
+void __tsan_read2(void* p) { RA(p, 2, false); }   void __tsan_write2(void* p) { RA(p, 2, true); }
+void __tsan_read4(void* p) { RA(p, 4, false); }   void __tsan_write4(void* p) { RA(p, 4, true); }
+void __tsan_read8(void* p) { RA(p, 8, false); }   void __tsan_write8(void* p) { RA(p, 8, true); }
+void __tsan_read16(void* p) { RA(p, 16, false); } void __tsan_write16(void* p) { RA(p, 16, true); }
+void __tsan_unaligned_read2(void* p) { RA(p, 2, false); }   void __tsan_unaligned_write2(void* p) { RA(p, 2, true); }
+void __tsan_unaligned_read4(void* p) { RA(p, 4, false); }   void __tsan_unaligned_write4(void* p) { RA(p, 4, true); }
+void __tsan_unaligned_read8(void* p) { RA(p, 8, false); }   void __tsan_unaligned_write8(void* p) { RA(p, 8, true); }
+void __tsan_unaligned_read16(void* p) { RA(p, 16, false); } void __tsan_unaligned_write16(void* p) { RA(p, 16, true); }
+void __tsan_read_range(void* p, unsigned long n) { RA(p, n, false); }
+void __tsan_write_range(void* p, unsigned long n) { RA(p, n, true); }
+void __tsan_vptr_update(void** vp, void* v) { if (*vp != v) RA(vp, 8, true); }
+void __tsan_vptr_read(void** vp) { RA(vp, 8, false); }
+void __tsan_atomic_thread_fence(int) {}
+void __tsan_atomic_signal_fence(int) {}
+#define ATOMICS(N, T)                                                                                                             \
+  T __tsan_atomic##N##_load(const volatile T* a, int) { race_atomic(a); return __atomic_load_n(a, __ATOMIC_SEQ_CST); }              \
+  void __tsan_atomic##N##_store(volatile T* a, T v, int) { race_atomic(a); __atomic_store_n(a, v, __ATOMIC_SEQ_CST); }              \
+  T __tsan_atomic##N##_exchange(volatile T* a, T v, int) { race_atomic(a); return __atomic_exchange_n(a, v, __ATOMIC_SEQ_CST); }    \
+  T __tsan_atomic##N##_fetch_add(volatile T* a, T v, int) { race_atomic(a); return __atomic_fetch_add(a, v, __ATOMIC_SEQ_CST); }    \
+  T __tsan_atomic##N##_fetch_sub(volatile T* a, T v, int) { race_atomic(a); return __atomic_fetch_sub(a, v, __ATOMIC_SEQ_CST); }    \
+  T __tsan_atomic##N##_fetch_and(volatile T* a, T v, int) { race_atomic(a); return __atomic_fetch_and(a, v, __ATOMIC_SEQ_CST); }    \
+  T __tsan_atomic##N##_fetch_or(volatile T* a, T v, int) { race_atomic(a); return __atomic_fetch_or(a, v, __ATOMIC_SEQ_CST); }      \
+  T __tsan_atomic##N##_fetch_xor(volatile T* a, T v, int) { race_atomic(a); return __atomic_fetch_xor(a, v, __ATOMIC_SEQ_CST); }    \
+  T __tsan_atomic##N##_fetch_nand(volatile T* a, T v, int) { race_atomic(a); return __atomic_fetch_nand(a, v, __ATOMIC_SEQ_CST); }  \
+  int __tsan_atomic##N##_compare_exchange_strong(volatile T* a, T* e, T v, int, int) { race_atomic(a); return __atomic_compare_exchange_n(a, e, v, false, __ATOMIC_SEQ_CST, __ATOMIC_SEQ_CST); } \
+  int __tsan_atomic##N##_compare_exchange_weak(volatile T* a, T* e, T v, int, int) { race_atomic(a); return __atomic_compare_exchange_n(a, e, v, false, __ATOMIC_SEQ_CST, __ATOMIC_SEQ_CST); }   \
+  T __tsan_atomic##N##_compare_exchange_val(volatile T* a, T e, T v, int, int) { race_atomic(a); __atomic_compare_exchange_n(a, &e, v, false, __ATOMIC_SEQ_CST, __ATOMIC_SEQ_CST); return e; }
+ATOMICS(8, unsigned char)
+ATOMICS(16, unsigned short)
+ATOMICS(32, unsigned int)
+ATOMICS(64, unsigned long)
+}  // extern "C"
+#endif  // VSIM_RACE
